@@ -84,7 +84,14 @@ def gen_cases(ctx, n, maxdim):
                 # previous low-rank part must be gone afterwards
                 vals2, vecs2 = [], []
             elif vals2 and r.random() < 0.5:
-                vals2[r.randrange(len(vals2))] = None
+                # invalid spectral data of every kind the update has to refuse: NaN / +inf / zero /
+                # negative eigenvalue, NaN / infinite eigenvector entry
+                how = r.choice(["nan", "inf", "zero", "neg", "vec_nan", "vec_inf"])
+                if how.startswith("vec"):
+                    vecs2 = [list(v) for v in vecs2]
+                    vecs2[r.randrange(len(vecs2))][r.randrange(dim)] = None if how == "vec_nan" else "inf"
+                else:
+                    vals2[r.randrange(len(vals2))] = {"nan": None, "inf": "inf", "zero": 0.0, "neg": -1.0}[how]
             c["ndraws"] = 2
             c["retransform"] = {"stds": [r.choice([0.5, 1.0, 2.0, 1.5, 0.25, 3.0]) for _ in range(dim)],
                                 "mean": [r.randint(-8, 8) / 8 for _ in range(dim)],
@@ -110,13 +117,19 @@ def gen_cases(ctx, n, maxdim):
     return cases
 
 
+def lr_invalid(lr):
+    """spectral data that LowRankMassMatrix::update must refuse as a whole"""
+    return (any(v is None or isinstance(v, str) or v <= 0 for v in lr["vals"])
+            or any(x is None or isinstance(x, str) for col in lr["vecs"] for x in col))
+
+
 def transform3(c, k):
     """(stds, mean, low-rank part) in force during draw k.  A low-rank update whose spectral data is
     not finite must be rejected as a whole: the old transformation stays in force."""
     rt = c.get("retransform")
     if k >= 1 and rt:
         if "lowrank" in rt:
-            if any(v is None for v in rt["lowrank"]["vals"]):
+            if lr_invalid(rt["lowrank"]):
                 return c["stds"], c["mean"], c.get("lowrank")
             return rt["stds"], rt["mean"], rt["lowrank"]
         return rt["stds"], rt["mean"], c.get("lowrank")
